@@ -781,12 +781,111 @@ Section ReadProofs.
     unfold Inv, Consistent in *. cbn [s_filled s_media s_actual]. tauto.
   Qed.
 
+  (* ---------------------------------------------------------------- prefetch (refill without a reader) *)
+  Lemma do_refill_noinput_spec w roff rsize0 count asize :
+    Good w -> asize = s_actual (w_st w) -> 0 <= roff < asize -> 0 < rsize0 ->
+    match do_refill_noinput src w roff rsize0 count asize with
+    | (RAgain, _) => False
+    | (RRet r, w') => Good w' /\ s_actual (w_st w') = asize /\ (AllOk (w_sor w) -> AllOk (w_sor w'))
+    end.
+  Proof.
+    intros HG Hasize Hroff Hrs0. pose proof HG as (Hinv & Hpg & Hheld).
+    unfold do_refill_noinput.
+    set (rsize := if asize <? roff + rsize0 then asize - roff else rsize0).
+    assert (Hrs : 0 < rsize /\ roff + rsize <= asize).
+    { unfold rsize. destruct (Z.ltb_spec asize (roff + rsize0)); lia. }
+    rewrite Hheld. cbn [conflict existsb].
+    replace (asize =? s_actual (w_st w)) with true by (symmetry; apply Z.eqb_eq; exact Hasize). cbn [negb].
+    pose proof (src_pread_spec w roff rsize ltac:(lia) ltac:(lia)) as Hs.
+    destruct (src_pread src w roff rsize) as [[ret0 data] w1].
+    destruct Hs as (S1 & S2 & S3 & S4 & S5 & S6 & S7).
+    assert (HG1 : Good w1).
+    { unfold Good. rewrite S1, S3. split; [exact Hinv |]. split; [| exact Hheld].
+      apply (PG_transfer w); [now rewrite S1 | exact S4 | exact Hpg]. }
+    destruct (Z.eqb_spec ret0 rsize) as [Heq | Hne]; cbn [negb].
+    - destruct S6 as [Hm | (Hr & Hz & Hd)]; [lia |].
+      assert (Hgd : GoodData (w_st w1) roff data).
+      { unfold GoodData. rewrite S1. split; [lia |]. split; [lia |]. intros i Hi. apply Hd. lia. }
+      destruct HG1 as (I1 & P1 & H1).
+      destruct (do_pwritev2_spec w1 roff data I1 Hgd) as (D1 & D2 & D3 & D4 & D5 & D6 & D7). cbv zeta in *.
+      destruct (do_pwritev2 w1 roff data) as [wr w2]. cbn [snd] in *.
+      assert (HG2 : Good w2).
+      { unfold Good. split; [exact D1 |]. split; [| now rewrite D6].
+        apply (PG_transfer w1); [exact D2 | exact D7 | exact P1]. }
+      assert (Hsor : AllOk (w_sor w) -> AllOk (w_sor w2)) by (intros Hok; rewrite D4; now destruct (S7 Hok)).
+      destruct (negb (wr =? rsize)); (split; [exact HG2 |]); (split; [now rewrite D2, S1 | exact Hsor]).
+    - split; [exact HG1 |]. split; [now rewrite S1 |]. intros Hok. now destruct (S7 Hok).
+  Qed.
+
+  Lemma try_refill_loop_spec fuel w offset count0 :
+    Good w -> 0 <= offset -> 0 < count0 ->
+    match try_refill_loop src cfg (Datatypes.S fuel) w offset count0 with
+    | (r, w') => Good w' /\ s_actual (w_st w') = s_actual (w_st w) /\ (AllOk (w_sor w) -> AllOk (w_sor w'))
+    end.
+  Proof.
+    intros HG Hoff Hc. pose proof HG as (Hinv & Hpg & Hheld). cbn [try_refill_loop].
+    set (asize := s_actual (w_st w)).
+    destruct (Z.leb_spec asize offset); [split; [exact HG | split; [reflexivity | tauto]] |].
+    set (count := if asize <? offset + count0 then asize - offset else count0).
+    assert (Hcnt : 0 < count /\ offset + count <= asize) by (unfold count; destruct (Z.ltb_spec asize (offset + count0)); lia).
+    destruct Hinv as (Hwf & Hrest).
+    destruct (query_spec (w_st w) offset count Hwf Hoff ltac:(lia)) as [(Hq0 & Hq1 & _) | (Hq1 & Hq2)].
+    - destruct (Z.ltb_spec (fst (query cfg (w_st w) offset count)) 0); [lia |]. rewrite Hq0. cbn [Z.eqb].
+      split; [exact HG | split; [reflexivity | tauto]].
+    - destruct (Z.ltb_spec (fst (query cfg (w_st w) offset count)) 0); [lia |].
+      destruct (Z.eqb_spec (snd (query cfg (w_st w) offset count)) 0); [lia |].
+      pose proof (do_refill_noinput_spec w (fst (query cfg (w_st w) offset count)) (snd (query cfg (w_st w) offset count)) count asize
+                    HG eq_refl ltac:(lia) Hq2) as Hr.
+      destruct (do_refill_noinput src w (fst (query cfg (w_st w) offset count)) (snd (query cfg (w_st w) offset count)) count asize) as [[r |] w1];
+        [| contradiction].
+      exact Hr.
+  Qed.
+
+  Lemma prefetch_spec w off cnt :
+    Good w ->
+    match prefetch src cfg w off cnt with
+    | (r, w') => Good w' /\ s_actual (w_st w) <= s_actual (w_st w') /\ (AllOk (w_sor w) -> AllOk (w_sor w'))
+    end.
+  Proof.
+    intros HG. unfold prefetch.
+    set (offset1 := if off <? 0 then 0 else off).
+    assert (H1 : 0 <= offset1) by (unfold offset1; destruct (Z.ltb_spec off 0); lia).
+    set (pg := c_page cfg).
+    set (offset := if negb (offset1 mod pg =? 0) then offset1 / pg * pg else offset1).
+    assert (H2 : 0 <= offset).
+    { unfold offset. destruct (negb (offset1 mod pg =? 0)); [| exact H1].
+      apply Z.mul_nonneg_nonneg; [apply Z.div_pos; unfold pg; lia | unfold pg; lia]. }
+    set (e := if negb ((offset1 + cnt) mod pg =? 0) then (offset1 + cnt + pg - 1) / pg * pg else offset1 + cnt).
+    destruct (Z.leb_spec (e - offset) 0); [split; [exact HG | split; [lia | tauto]] |].
+    destruct (Z.ltb_spec PREFETCH_BATCH (e - offset)); [split; [exact HG | split; [lia | tauto]] |].
+    assert (Hres : match try_refill_range src cfg w offset (e - offset) with
+                   | (r, w') => Good w' /\ s_actual (w_st w) <= s_actual (w_st w') /\ (AllOk (w_sor w) -> AllOk (w_sor w'))
+                   end).
+    { unfold try_refill_range.
+      destruct ((s_actual (w_st w) <=? offset) || (s_actual (w_st w) <? offset + (e - offset))).
+      - pose proof (tryget_size_spec w HG) as Hg. destruct (tryget_size src cfg w) as [r w1].
+        destruct Hg as (G1 & G2 & G3 & G4).
+        destruct (Z.eqb_spec r 0) as [Hr0 | Hr0]; cbn [negb].
+        + destruct G2 as [(_ & HG1 & Hmono & _) | (Hm1 & _ & _)]; [| lia].
+          pose proof (try_refill_loop_spec 3 w1 offset (e - offset) HG1 H2 ltac:(lia)) as Hl.
+          destruct (try_refill_loop src cfg 4 w1 offset (e - offset)) as [r' w'].
+          destruct Hl as (L1 & L2 & L3). split; [exact L1 |]. split; [lia |]. intros Hok. apply L3. now destruct (G4 Hok).
+        + destruct G2 as [(Hz0 & _) | (Hm1 & HG1 & Hsame)]; [lia |].
+          split; [exact HG1 |]. split; [lia |]. intros Hok. now destruct (G4 Hok).
+      - pose proof (try_refill_loop_spec 3 w offset (e - offset) HG H2 ltac:(lia)) as Hl.
+        destruct (try_refill_loop src cfg 4 w offset (e - offset)) as [r' w'].
+        destruct Hl as (L1 & L2 & L3). split; [exact L1 |]. split; [lia | exact L3]. }
+    destruct (try_refill_range src cfg w offset (e - offset)) as [ret w1].
+    destruct (ret <? 0); exact Hres.
+  Qed.
+
   (* ---------------------------------------------------------------- operation sequences *)
   Definition op_ok (o : op) : Prop :=
     match o with
     | OpRead off vsize held _ _ => 0 <= off /\ 0 <= vsize /\ held = []
     | OpEvict off cnt => 0 <= off /\ -1 <= cnt
     | OpEvictAll => True
+    | OpPrefetch _ _ => True
     end.
 
   (* a world between two operations: nothing pending, no foreign lock *)
@@ -829,7 +928,7 @@ Section ReadProofs.
                    /\ (AllOk (w_sor w) -> AllOk (w_sor w'))
     end.
   Proof.
-    intros (Hinv & Hpend & Hheld) Hok. destruct o as [off vsize held co sync | off cnt |]; cbn [run_op op_ok] in *.
+    intros (Hinv & Hpend & Hheld) Hok. destruct o as [off vsize held co sync | off cnt | | off cnt]; cbn [run_op op_ok] in *.
     - destruct Hok as (Hoff & Hvs & Hh). subst held. cbn [w_st w_sor w_wor].
       set (w1 := mkW (w_st w) (w_sor w) (w_wor w) (repeat 170 (Z.to_nat vsize)) [] [] []).
       assert (HG1 : Good w1).
@@ -865,6 +964,14 @@ Section ReadProofs.
       cbn [fst snd]. split; [unfold Idle; split; [exact E1 | split; assumption] |].
       split; [rewrite E2; unfold w0; cbn [w_st]; lia |]. split; [exact I |].
       unfold evict_all, evict. cbn [Z.eqb]. destruct (c_tne cfg && (zlen (s_media (w_st w0)) <=? 0)); cbn [add_log set_st w_sor w0]; tauto.
+    - set (w0 := mkW (w_st w) (w_sor w) (w_wor w) [] [] [] []).
+      assert (HG0 : Good w0).
+      { unfold Good, w0. cbn [w_st w_held]. split; [exact Hinv |]. split; [intros ? ? [] | reflexivity]. }
+      pose proof (prefetch_spec w0 off cnt HG0) as Hp.
+      destruct (prefetch src cfg w0 off cnt) as [r w1]. destruct Hp as ((P1 & P2 & P3) & Hmono & Hsor).
+      cbn [fst snd]. split; [unfold Idle; cbn [w_st w_pending w_held]; split; [exact P1 | split; reflexivity] |].
+      split; [cbn [w_st]; unfold w0 in Hmono; cbn [w_st] in Hmono; exact Hmono |]. split; [exact I |].
+      cbn [w_sor]. unfold w0 in Hsor. cbn [w_sor] in Hsor. exact Hsor.
   Qed.
 
   (* all results of a run: each read is correct for the oracle suffix it started with *)
@@ -933,7 +1040,7 @@ Theorem consistent_preserved_proof :
     Idle src cfg (snd (run_ops src cfg w ops)) /\ results_ok src cfg w ops.
 Proof.
   intros src cfg Hp Hu Hs ops w Hi Ho.
-  destruct (run_ops_spec src cfg Hu Hs ops w Hi Ho) as (H1 & H2 & _). split; assumption.
+  destruct (run_ops_spec src cfg Hp Hu Hs ops w Hi Ho) as (H1 & H2 & _). split; assumption.
 Qed.
 
 (* a concrete non-trivial state meeting the hypotheses: 5-byte source, bytes 1..2 cached in a
